@@ -502,16 +502,18 @@ BaseOp(op) == CASE op = "strict.source_trait" -> "strict.source" [] op = "strict
 \* hand-written Clone and PartialEq impls: a clone equals its original, == is equality of the data
 CloneOps == {"ff.clone", "sf.clone", "ic.clone_ff", "ic.clone_sf", "hyper.clone", "strict.clone", "arrow.clone"}
 EqOps == {"sf.eq", "ic.eq_ff", "ic.eq_sf"}
+\* Zero::is_zero of label arrays: the empty array
 ConfClone(op, a, o) ==
   CASE op = "ff.clone" -> ValIs(o, a.f) [] op = "sf.clone" -> ValIs(o, a.a)
     [] op \in {"ic.clone_ff", "ic.clone_sf"} -> ValIs(o, a.ic)
     [] op = "hyper.clone" -> ValIs(o, a.h) [] op = "strict.clone" -> ValIs(o, a.f)
     [] op = "arrow.clone" -> ValIs(o, [source |-> a.source, target |-> a.target, w |-> a.w, x |-> a.x])
     [] op \in EqOps -> ValIs(o, a.a = a.b)
+    [] op = "sf.is_zero" -> ValIs(o, a.a = <<>>)
     [] OTHER -> FALSE
 ConfEvent(st, ev) ==
   LET op == BaseOp(ev.op)  a == ev.args  o == ev.obs IN
-  CASE op \in CloneOps \cup EqOps -> ConfClone(op, a, o)
+  CASE op \in CloneOps \cup EqOps \cup {"sf.is_zero"} -> ConfClone(op, a, o)
     [] op \in ArrOps -> ConfArr(op, a, o)
     [] op \in FFOps -> ConfFF(op, a, o)
     [] op \in ICOps -> ConfIC(op, a, o)
